@@ -47,7 +47,12 @@ fn gen(r: &mut Rng, _cfg: &RunCfg) -> Case {
             o.sep = if cfg!(feature = "ulb") && r.coin() { Sep::Unicode } else { Sep::Ascii };
             o.split = if r.coin() { Split::Hyphen } else { Split::None };
             o.algo = if cfg!(feature = "smawk") && r.coin() { Algo::Optimal(Pen::DEFAULT) } else { Algo::FirstFit };
-            Case::new("sweep").text(p).opt(o)
+            // second-paragraph mode: the paragraph follows an empty first paragraph and carries the subsequent indent
+            let second = r.chance(1, 3);
+            if second && r.coin() {
+                o.si = opts::indent(r);
+            }
+            Case::new("sweep").text(p).opt(o).num(second as usize)
         }
         2..=3 => {
             // differential on single lines, dirty sequences included
@@ -103,27 +108,44 @@ fn check(case: &Case, obs: &mut Obs) -> Verdict {
                 }
             }
             let dw = textwrap::core::display_width;
-            let lo = dw(&o.ii) + dw(p);
-            let hi = p.len() + dw(&o.ii) + 2;
-            let want = format!("{}{}", o.ii, p.trim_end_matches(' '));
+            let second = case.nums.first().copied().unwrap_or(0) == 1;
+            let ind: &str = if second { &o.si } else { &o.ii };
+            if !clean_ansi(ind) {
+                return Verdict::Skipped("outside the sweep's domain");
+            }
+            let lo = dw(ind) + dw(p);
+            let hi = p.len() + dw(ind) + 2;
+            let want = format!("{}{}", ind, p.trim_end_matches(' '));
+            let text = if second { format!("{}{}", o.le(), p) } else { p.to_string() };
             let mut fast = 0u64;
             let mut slow = 0u64;
             for w in lo..=hi {
                 let mut ow = o.clone();
                 ow.width = w;
-                let lines = textwrap::wrap(p, ow.build());
+                let lines = textwrap::wrap(&text, ow.build());
                 obs.calls += 1;
-                if lines.len() != 1 || lines[0] != want {
+                let got: &[std::borrow::Cow<str>] = if second {
+                    if lines.is_empty() || lines[0] != o.ii.as_str() {
+                        return Verdict::Violated(format!("empty first paragraph did not give the line {:?}: {:?}", o.ii, lines));
+                    }
+                    &lines[1..]
+                } else {
+                    &lines[..]
+                };
+                if got.len() != 1 || got[0] != want {
                     return Verdict::Violated(format!(
-                        "paragraph {:?} (display width {} + indent {}) fits width {} but wrap returned {:?} instead of [{:?}]",
-                        p, dw(p), dw(&o.ii), w, lines, want
+                        "{}paragraph {:?} (display width {} + indent {}) fits width {} but wrap returned {:?} instead of [{:?}]",
+                        if second { "second " } else { "" }, p, dw(p), dw(ind), w, got, want
                     ));
                 }
-                if p.len() < w && o.ii.is_empty() {
+                if p.len() < w && ind.is_empty() {
                     fast += 1;
                 } else {
                     slow += 1;
                 }
+            }
+            if second && slow > 0 {
+                obs.bump("sweep_second_paragraph");
             }
             if fast > 0 && slow > 0 {
                 obs.bump("sweep_crossed_shortcut_threshold");
@@ -135,7 +157,7 @@ fn check(case: &Case, obs: &mut Obs) -> Verdict {
             }
             Verdict::held(
                 !p.is_empty() && slow > 0,
-                h(&[0, o.shape(), bucket(hi - lo), (p.len() > dw(p)) as u64, p.contains('\u{1b}') as u64, p.ends_with(' ') as u64, p.starts_with(' ') as u64]),
+                h(&[0, o.shape(), second as u64, bucket(hi - lo), (p.len() > dw(p)) as u64, p.contains('\u{1b}') as u64, p.ends_with(' ') as u64, p.starts_with(' ') as u64]),
             )
         }
         "diff_line" => {
@@ -235,13 +257,13 @@ fn extra(cfg: &RunCfg, w: &mut Worker) {
 fn prop() -> Prop {
     Prop {
         id: "C05",
-        rule: "sweep (2/5): clean single paragraphs (multi-byte and coloured, so byte length > display width) with optional indents, every separator, built-in splitters, break_words on/off, first-fit and default-penalty optimal-fit, wrapped at EVERY width from display width (+ indent) to byte length + 2: the result must be exactly [indent + paragraph without trailing spaces]; differential (3/5): textwrap::fuzzing::wrap_single_line vs wrap_single_line_slow_path on arbitrary lines (dirty sequences included, with and without previously emitted lines) and fill vs fill_slow_path on arbitrary texts, widths on both sides of the byte length; + exhaustive small strings. non-trivial = the sweep exercised the general path on fitting text / the differential case took the shortcut; distinct = (sub-check, option shape, sweep length bucket or shortcut taken, bytes > columns, sequences, leading / trailing space)",
+        rule: "sweep (2/5): clean single paragraphs (multi-byte and coloured, so byte length > display width) with optional indents (also as the second paragraph of a text, carrying the subsequent indent), every separator, built-in splitters, break_words on/off, first-fit and default-penalty optimal-fit, wrapped at EVERY width from display width (+ indent) to byte length + 2: the result must be exactly [indent + paragraph without trailing spaces]; differential (3/5): textwrap::fuzzing::wrap_single_line vs wrap_single_line_slow_path on arbitrary lines (dirty sequences included, with and without previously emitted lines) and fill vs fill_slow_path on arbitrary texts, widths on both sides of the byte length; + exhaustive small strings. non-trivial = the sweep exercised the general path on fitting text / the differential case took the shortcut; distinct = (sub-check, option shape, sweep length bucket or shortcut taken, bytes > columns, sequences, leading / trailing space)",
         gen,
         check,
         panic_is_violation: false,
         budget: (1200000, 36000000),
         extra: Some(extra),
-        required: &["sweep_crossed_shortcut_threshold", "diff_line_shortcut_taken", "diff_line_general_path", "diff_fill_shortcut_taken", "diff_fill_general_path"],
+        required: &["sweep_crossed_shortcut_threshold", "sweep_second_paragraph", "diff_line_shortcut_taken", "diff_line_general_path", "diff_fill_shortcut_taken", "diff_fill_general_path"],
         known: Some(known),
     }
 }
